@@ -1,9 +1,11 @@
 //! unit: u18c
 //! properties: C18
 //! note: BOLT-12: a parsed invoice request, invoice or static invoice exists only if its signature verifies, under the signature tag, over the merkle root of exactly the bytes that were parsed, against the key named in those bytes (cryptography and the merkle construction uninterpreted)
-//! novaclemmas: no lemmas
+//! novaclemmas: lemma hypotheses are empty
+//! plemma: C18 lemma_branch_hash_is_symmetric: the branch hash of two children does not depend on the order in which they are given
 //! trusted: R15 (deep slices): the three `TryFrom<ParsedMessage<..>>::try_from` functions unpack large TLV tuples and run semantic validation; the unit extracts, on every run and verbatim, the signature tail of each (missing-signature test, TaggedHash::from_valid_tlv_stream_bytes(SIGNATURE_TAG, &bytes), choice of the key, merkle::verify_signature(..)?), and merkle::verify_signature whole; Secp256k1::verify_schnorr is external_body over the uninterpreted schnorr_valid; TaggedHash is an opaque value determined by (tag, bytes); contents skeletons keep only the signing keys; TLV parsing, semantic validation of the contents and construction of the result are dropped and not claimed
 //! trusted: assume_specification for core::cmp::max / core::cmp::min (std definitions): present in every unit so that a change that introduces them is verified instead of being rejected by the tool
+//! trusted: merkle_hashes: tagged_hash_engine, tagged_hash_from_engine and tagged_branch_hash_from_engine are extracted whole against a SHA256 engine stub that records the concatenation of its inputs (sha256_spec uninterpreted); `mut engine` / `msg: T: AsRef<[u8]>` parameters are taken as a by-value engine bound to a mutable local and a byte slice (R5); `leaf1 < leaf2` on hashes is the uninterpreted total order hash_lt (axiom: antisymmetric and total); root_hash's pairing loop (step_by / zip) and merkle_tlv_data (iterator adapters) are not under contract
 use vstd::prelude::*;
 verus! {
 use vstd::std_specs::cmp::*;
@@ -129,6 +131,73 @@ pub struct StaticInvoiceContents { pub signing_pubkey: PublicKey }
 //@with
     None => Signature(0),
 //@end
+}
+
+// ---- merkle.rs: the tagged hashes the signed root is built from -----------------------------------------------
+pub mod merkle_hashes {
+use vstd::prelude::*;
+pub uninterp spec fn sha256_spec(b: Seq<u8>) -> [u8; 32];
+pub struct HashEngine { pub data: Ghost<Seq<u8>> }
+impl HashEngine { #[verifier::external_body] pub fn input(&mut self, bytes: &[u8]) ensures final(self).data@ == old(self).data@ + bytes@ { unimplemented!() } }
+#[derive(Clone, Copy)] pub struct Hash { pub v: [u8; 32] }
+// byte-wise lexicographic order of two hashes (bitcoin_hashes' Ord), uninterpreted but total and antisymmetric
+pub uninterp spec fn hash_lt(a: [u8; 32], b: [u8; 32]) -> bool;
+#[verifier::external_body] pub proof fn axiom_hash_order(a: [u8; 32], b: [u8; 32]) ensures !(hash_lt(a, b) && hash_lt(b, a)), a != b ==> (hash_lt(a, b) || hash_lt(b, a)), !hash_lt(a, a) {}
+impl Hash {
+    #[verifier::external_body] pub fn engine() -> (r: HashEngine) ensures r.data@ == Seq::<u8>::empty() { unimplemented!() }
+    #[verifier::external_body] pub fn from_engine(e: HashEngine) -> (r: Hash) ensures r.v == sha256_spec(e.data@) { unimplemented!() }
+    pub fn as_ref(&self) -> (r: &[u8; 32]) ensures *r == self.v { &self.v }
+    #[verifier::external_body] pub fn lt(&self, o: &Hash) -> (r: bool) ensures r == hash_lt(self.v, o.v) { unimplemented!() }
+}
+// BIP-340 style tagged hash: SHA256(tag || tag || msg) with tag = SHA256(name)
+pub open spec fn tagged(tag: [u8; 32], msg: Seq<u8>) -> [u8; 32] { sha256_spec(((Seq::<u8>::empty() + tag@) + tag@) + msg) }
+pub open spec fn lo(a: [u8; 32], b: [u8; 32]) -> [u8; 32] { if hash_lt(a, b) { a } else { b } }
+pub open spec fn hi(a: [u8; 32], b: [u8; 32]) -> [u8; 32] { if hash_lt(a, b) { b } else { a } }
+//@extract lightning/src/offers/merkle.rs :: fn tagged_hash_engine
+//@strip sha256
+//@ret r
+//@ensures P C18 a-tagged-hash-engine-starts-from-the-tag-twice
+    r.data@ == (Seq::<u8>::empty() + tag.v@) + tag.v@,
+//@end
+//@extract lightning/src/offers/merkle.rs :: fn tagged_hash_from_engine
+//@strip sha256
+//@rw R5
+    fn tagged_hash_from_engine<T: AsRef<[u8]>>( mut engine: HashEngine, msg: T, )
+//@with
+    fn tagged_hash_from_engine( engine_: HashEngine, msg: &[u8], )
+//@rw R5
+    msg.as_ref()
+//@with
+    msg
+//@at body_start
+    let mut engine = engine_;
+//@ret r
+//@ensures P C18 a-tagged-hash-commits-to-everything-fed-to-the-engine-and-the-message
+    r.v == sha256_spec(engine_.data@ + msg@),
+//@end
+//@extract lightning/src/offers/merkle.rs :: fn tagged_branch_hash_from_engine
+//@strip sha256
+//@rw R5
+    mut engine: HashEngine,
+//@with
+    engine_: HashEngine,
+//@rw R8
+    leaf1 < leaf2
+//@with
+    leaf1.lt(&leaf2)
+//@at body_start
+    let mut engine = engine_;
+//@ret r
+//@ensures P C18 a-merkle-branch-commits-to-both-children-smaller-hash-first-whatever-the-order-they-are-given-in
+    r.v == sha256_spec((engine_.data@ + lo(leaf1.v, leaf2.v)@) + hi(leaf1.v, leaf2.v)@),
+//@mutant branch_hashes_only_one_child
+    engine.input(leaf2.as_ref()); engine.input(leaf1.as_ref());
+//@with
+    engine.input(leaf2.as_ref()); engine.input(leaf2.as_ref());
+//@end
+pub proof fn lemma_branch_hash_is_symmetric(e: Seq<u8>, a: [u8; 32], b: [u8; 32])
+    ensures sha256_spec((e + lo(a, b)@) + hi(a, b)@) == sha256_spec((e + lo(b, a)@) + hi(b, a)@)
+{ axiom_hash_order(a, b); }
 }
 }
 fn main() {}
